@@ -33,6 +33,17 @@ def _translate_devices(st):
             "  pmap_device_count.")
 
 
+def _is_device_gather(st):
+    """`if <cond>: results = jax.device_put(results, <device>)` moves the array between devices
+    and leaves every value unchanged: an identity for the list model."""
+    if not (isinstance(st, ast.If) and not st.orelse and len(st.body) == 1):
+        return False
+    a = st.body[0]
+    return (isinstance(a, ast.Assign) and len(a.targets) == 1 and name_of(a.targets[0]) == "results"
+            and isinstance(a.value, ast.Call) and ast.unparse(a.value.func) == "jax.device_put"
+            and len(a.value.args) == 2 and name_of(a.value.args[0]) == "results" and not a.value.keywords)
+
+
 def translate(repo):
     path = f"{repo}/src/mdpax/utils/batch_processing.py"
     tree, _ = load_module(path)
@@ -104,7 +115,7 @@ def translate(repo):
 
     # ---- unbatch_results
     unb = find_func(cls, "unbatch_results")
-    ub = [s for s in strip_docstring(unb.body) if not is_logger_call(s)]
+    ub = [s for s in strip_docstring(unb.body) if not is_logger_call(s) and not _is_device_gather(s)]
     if len(ub) != 3:
         fail(unb, "unbatch_results must have three statements")
     s0, s1, s2 = ub
